@@ -8,7 +8,8 @@ VERIF = os.path.dirname(os.path.dirname(os.path.abspath(__file__)))
 
 
 def finish(prop, tier, seed, results, wall, write=True):
-    tot = dict(paths=0, paths_nontrivial=0, obligations=0, discharged=0, trivial=0, queries=0, solver_s=0.0)
+    tot = dict(paths=0, paths_nontrivial=0, obligations=0, discharged=0, trivial=0, queries=0, solver_s=0.0,
+               normalised_identities=0, exact_identities=0)
     viol, known, herr, inconc, aborted = [], [], [], [], []
     functions, stubs, outside, samples = set(), [], [], []
     canaries = caught = 0
@@ -84,6 +85,8 @@ def finish(prop, tier, seed, results, wall, write=True):
                      "simplify to true and had to go to the solver",
                 obligations=tot["obligations"], discharged=tot["discharged"],
                 discharged_by_simplification=tot["trivial"],
+                discharged_as_rational_function_identity=tot["normalised_identities"],
+                discharged_as_exact_identity_by_solver=tot["exact_identities"],
                 inconclusive=len(inconc), aborted_paths=len(aborted),
                 exhaustive=all(r["exhaustive"] for r in results),
                 paths_exhaustive_per_harness={"%s%s" % (r["harness"], json.dumps(r["params"], default=str)):
